@@ -131,9 +131,9 @@ func verifyFunc(p *Prog, db *ContractDB, fc *FuncContract, prop string) (u *Unit
 		} else if n := fn.Signature.Results().At(i).Name(); n != "" {
 			name = n
 		}
-		eenv.names[name] = specVal{res[i], rt}
+		eenv.names[name] = specVal{term: res[i], typ: rt}
 		if len(rts) == 1 {
-			eenv.names["result"] = specVal{res[i], rt}
+			eenv.names["result"] = specVal{term: res[i], typ: rt}
 		}
 	}
 	if x.wantObl(fc.Props) {
@@ -152,7 +152,7 @@ func verifyFunc(p *Prog, db *ContractDB, fc *FuncContract, prop string) (u *Unit
 func (x *Exec) bindParams(env *SpecEnv, fc *FuncContract, fn *ssa.Function, fr *Frame) {
 	for i, p := range fn.Params {
 		if i < len(fr.params) {
-			env.names["old:"+p.Name()] = specVal{fr.params[i], p.Type()}
+			env.names["old:"+p.Name()] = specVal{term: fr.params[i], typ: p.Type()}
 		}
 	}
 }
@@ -224,7 +224,7 @@ func verifyLemma(p *Prog, db *ContractDB, lm *Lemma, prop string) (u *Unit) {
 			x.unsupp("lemma %s: cannot resolve type %s", lm.Name, exprString(v.Type))
 			continue
 		}
-		env.names[v.Name] = specVal{x.freshOfType(st, "v_"+v.Name, ty), ty}
+		env.names[v.Name] = specVal{term: x.freshOfType(st, "v_"+v.Name, ty), typ: ty}
 	}
 	n := 0
 	for _, s := range lm.Steps {
